@@ -45,9 +45,10 @@ LAW_LEAVES = [
     T,
     pytd.LateType("a.X"),
     pytd.LateType("a.X", recursive=True),
+    pytd.ClassType("pkg.int_alias", _INT_CLS),   # another name, same resolved class
 ]
 LAW_NAMES = ["N:int", "C:int", "C*:int", "N:str", "Any", "nothing", "Literal[1]",
-             "Literal[True]", "T", "Late:a.X", "LateRec:a.X"]
+             "Literal[True]", "T", "Late:a.X", "LateRec:a.X", "C*:int_alias"]
 NL = param("C12_NLEAVES", quick=4, thorough=5)
 COMP = param("C12_COMP", quick=2, thorough=5)   # composite kinds (union, list, tuple, callable, tuple[...])
 DEPTH = param("C12_DEPTH", quick=2, thorough=2)
